@@ -97,7 +97,7 @@ def audit(prop):
         if cur is None:
             continue
         m = re.match(r"^([A-Za-z_][A-Za-z0-9_.']*)\s*:", line)
-        if m and not line.startswith(" "):
+        if m and not line.startswith(" ") and m.group(1) != "Axioms":   # "Axioms:" is the header line
             res["axioms"][cur].append(m.group(1))
     bad = []
     for t, axs in res["axioms"].items():
